@@ -366,6 +366,11 @@ def check(P, R):
     c06.check_bytes_vs_int(P, sub, 'C07.e')
     c06.check_short_window_decisions(P, sub, 'C07.e')
     check_boundary_refusals(P, R)
+    check_window_hides_source(P, R, 'C07.a')
+    # the same form arrives under chunked framing: the decoder accepts every legal spelling of a chunk (premise from C05)
+    from ..report import run_premise
+    from . import c05 as _c05
+    run_premise(R, _c05, P, {'C05.d'}, 'C07.c', 'the same fields arrive under chunked framing, whatever legal spelling the chunk sizes have')
 
 
 def check_upload_window(P, R, rid='C07.a'):
@@ -569,6 +574,33 @@ def check_upload_window(P, R, rid='C07.a'):
     R.ob(rid, fr, wins[0] if wins else fr.node, ok, text='file = BytesIOProxy(src, *data_section)', detail='' if ok else
          'the upload window is not the data section of its own part')
 
+
+
+def check_window_hides_source(P, R, rid):
+    """nothing an upload's file object hands out gives access to the shared body buffer except `read()` through the window: not the buffer itself, not its
+    descriptor (`fileno()` - a sendfile-style file wrapper would stream the whole request body), not its raw buffer"""
+    cls = P.cls(f'{MP}:BytesIOProxy')
+    n = 0
+    for mname, m in cls.methods.items():
+        if isinstance(m.node, ast.Lambda):
+            continue
+        for (v, at, rst) in T.result_values(m):
+            if v is None:
+                continue
+            LEAKY = {'fileno', 'getbuffer', 'getvalue', 'detach', 'readall', 'readline', 'readlines', 'read', 'readinto', 'raw', 'buffer', '__iter__', '__next__'}
+            cl_ = m.rd.closure_nodes(v, at)
+            leaks = [x for x in cl_ if isinstance(x, ast.Attribute) and dotted(x) == 'self._src' and not isinstance(getattr(x, '_p', None), ast.Attribute)]
+            leaks += [x for x in cl_ if isinstance(x, ast.Attribute) and dotted(x.value) == 'self._src' and x.attr in LEAKY]
+            if not leaks:
+                continue
+            n += 1
+            # the one legitimate use: the bytes read through the window
+            okr = mname == 'read' and isinstance(v, ast.Call) and dotted(v.func) == 'self._src.read'
+            R.ob(rid, m, rst, okr, text=f'BytesIOProxy.{mname} returns `{short(v)}`', detail='' if okr else
+                 f'BytesIOProxy.{mname}() returns `{short(v)}`, which gives access to the shared body buffer itself: through its descriptor a sendfile-style `wsgi.file_wrapper` '
+                 f'streams the whole request body from offset 0 instead of the upload - the bytes of every other part included',
+                 why='no byte of one part appears in another', key_extra=f'source-leak:{mname}')
+    return n
 
 
 def check_boundary_refusals(P, R):
